@@ -145,12 +145,14 @@ ErrTest(accept, g, minExit) ==
        ELSE Shrink(g, minExit) /\ UNCHANGED <<acc, x>>
     /\ UNCHANGED <<P, xnew, order, luCur, it, nJac, nLu, nOde, total, ncb, jacAt, evalMax, ordHist>>
 
-Callback(flag) ==
+\* xm: where the run continues from (a callback returning ModifiedSolution may move x back inside the step it was handed)
+Callback(flag, xm) ==
     /\ pc = "cb" /\ ncb' = ncb + 1
+    /\ IF flag = "Modified" THEN xm <= x /\ x' = xm ELSE xm = x /\ UNCHANGED x
     /\ CASE flag = "Interrupt" -> Finish("UserInterrupt")
          [] flag = "Modified"  -> pc' = "moda" /\ UNCHANGED status
          [] OTHER              -> pc' = "post" /\ UNCHANGED status
-    /\ UNCHANGED <<P, x, xnew, h, order, nEq, luCur, it, nJac, nLu, nOde, total, acc, rej, jacAt, evalMax, ordHist>>
+    /\ UNCHANGED <<P, xnew, h, order, nEq, luCur, it, nJac, nLu, nOde, total, acc, rej, jacAt, evalMax, ordHist>>
 
 \* newOrd = 0: no order selection on this step; g: the step size chosen (order selection only)
 Post(newOrd, g) ==
